@@ -259,6 +259,39 @@ def run_shard(spec, res):
                         v = getattr(s, op)(e)
                         judge_value(fam, cons2, e_d, v & ((1 << wv) - 1), op + "-after-sibling-solved", sname)
                     res.count("sibling_scenarios")
+                    # a copy taken right after an add (before the solver was asked anything about it) holds it too
+                    s3 = scls()
+                    s3.add(cons)
+                    s3.eval(e, 1)
+                    s3.add([build(extra_d)])
+                    b3 = s3.branch()
+                    for v in b3.eval(e, rng.choice([1, 2, 4])):
+                        judge_value(fam, cons2, e_d, v, "eval-on-copy-taken-after-add", sname)
+                    for op in ("min", "max"):
+                        v = getattr(b3, op)(e)
+                        judge_value(fam, cons2, e_d, v & ((1 << wv) - 1), op + "-on-copy-taken-after-add", sname)
+                    # solvers that have each solved on their own, put together: two of them are about the same variable
+                    # (one bounds it from above, one from below), the receiver is not
+                    cv_d = ["bvs", f"cmb{wv}", wv]
+                    k_lo = rng.randrange(0, 1 << wv)
+                    k_hi = rng.randrange(k_lo, 1 << wv)
+                    lo_d, hi_d = ["uge", cv_d, ["bvv", k_lo, wv]], ["ule", cv_d, ["bvv", k_hi, wv]]
+                    r_ = scls()
+                    r_.add(cons)
+                    r_.eval(e, 1)
+                    o1, o2 = scls(), scls()
+                    o1.add([build(hi_d)])
+                    o2.add([build(lo_d)])
+                    cv = build(cv_d)
+                    o1.min(cv)
+                    o2.max(cv)
+                    comb = r_.combine([o1, o2])
+                    cons3 = cons_d + [lo_d, hi_d]
+                    for v in comb.eval(cv, rng.choice([1, 2, 3])):
+                        judge_value(fam, cons3, cv_d, v, "eval-on-combined", sname)
+                    for op in ("min", "max"):
+                        judge_value(fam, cons3, cv_d, getattr(comb, op)(cv) & ((1 << wv) - 1), op + "-on-combined", sname)
+                    res.count("copy_and_combine_scenarios")
                     cons_d = cons2
             except claripy.errors.UnsatError:
                 res.violation({"kind": "model-value", "what": "UnsatError-on-satisfiable", "family": fam, "solver": sname, "constraints": cons_d, "expr": exprs_d[0], "op": "after-sibling-solved"})
